@@ -31,19 +31,20 @@ ASSUMPTIONS = ['work is measured in interpreter LINE events inside asn1tools (C-
                'any exception type is an acceptable outcome for this property']
 REPORT = ['modules', 'evaluations', 'outcome:value', 'outcome:library_error', 'outcome:foreign_error', 'sentinel_checks',
           'zero_width_class_inputs', 'carved_out']
-FLOORS = {'quick': {'evaluations': 20000, 'sentinel_checks': 20000}, 'thorough': {'evaluations': 300000}}
+FLOORS = {'quick': {'evaluations': 20000, 'sentinel_checks': 20000},
+          'thorough': {'evaluations': 80000, 'sentinel_checks': 80000}}
 TIMEOUT = {'quick': 1800, 'thorough': 14000}
 RLIMIT_AS = 3 << 30
 
 
 def shards(tier):
-    return 32 if tier == 'quick' else 128
+    return 32 if tier == 'quick' else 64
 
 
 def params(tier):
     if tier == 'quick':
         return {'modules': 4, 'seeds_per_type': 3, 'mutants': 14, 'randoms': 6}
-    return {'modules': 16, 'seeds_per_type': 5, 'mutants': 30, 'randoms': 12}
+    return {'modules': 12, 'seeds_per_type': 5, 'mutants': 21, 'randoms': 9}
 
 
 def profile(tier):
